@@ -145,11 +145,14 @@ VProbe(i) ==
           ELSE Go(i, "mkstemp", seen[i], n \in alive) /\ SetPid(i) /\ Log(StepEv(i, "vprobe", "", 0))
 
 (* ---- create(): self.pid = pid; mkstemp / write / rename / close / chmod ---- *)
+(* deviation "SharedTmp": a fixed temporary name (open(... O_CREAT | O_TRUNC)) instead of mkstemp: both instances
+   use one temporary file (slot 1); only visible when their system calls interleave (Atomic = FALSE) *)
+TmpOf(i) == IF "SharedTmp" \in Dev THEN 1 ELSE i
 Mkstemp(i) ==
   /\ pc[i] = "mkstemp"
   /\ IF "DirectWrite" \in Dev
      THEN file' = [file EXCEPT ![fname[i]] = -1] /\ tmp' = tmp      \* open(path, "w") truncates
-     ELSE tmp' = [tmp EXCEPT ![i] = -1] /\ file' = file
+     ELSE tmp' = [tmp EXCEPT ![TmpOf(i)] = -1] /\ file' = file
   /\ Go(i, "write", seen[i], vlive[i])
   /\ UNCHANGED <<litter, alive, fname, mpid, op, nops, ncrash>>
   /\ Log(StepEv(i, "mkstemp", "", 0))
@@ -160,16 +163,19 @@ Write(i) ==
   /\ pc[i] = "write"
   /\ IF "DirectWrite" \in Dev
      THEN file' = [file EXCEPT ![fname[i]] = Content(i)] /\ tmp' = tmp /\ Go(i, "close", seen[i], vlive[i])
-     ELSE tmp' = [tmp EXCEPT ![i] = Content(i)] /\ file' = file /\ Go(i, "rename", seen[i], vlive[i])
+     ELSE tmp' = [tmp EXCEPT ![TmpOf(i)] = Content(i)] /\ file' = file /\ Go(i, "rename", seen[i], vlive[i])
   /\ UNCHANGED <<litter, alive, fname, mpid, op, nops, ncrash>>
   /\ Log(StepEv(i, "write", "", 0))
 
 Rename(i) ==
   /\ pc[i] = "rename"
-  /\ file' = [file EXCEPT ![fname[i]] = tmp[i]] /\ tmp' = [tmp EXCEPT ![i] = NoTmp]
-  /\ Go(i, "close", seen[i], vlive[i])
   /\ UNCHANGED <<litter, alive, fname, mpid, op, nops, ncrash>>
-  /\ Log(StepEv(i, "rename", "", 0))
+  /\ IF tmp[TmpOf(i)] = NoTmp
+     THEN \* (only with SharedTmp: the other instance renamed the common temporary file away: ENOENT)
+          /\ UNCHANGED <<file, tmp>> /\ Fin(i, "raised") /\ Log(StepEv(i, "rename", "raised", 0))
+     ELSE /\ file' = [file EXCEPT ![fname[i]] = tmp[TmpOf(i)]] /\ tmp' = [tmp EXCEPT ![TmpOf(i)] = NoTmp]
+          /\ Go(i, "close", seen[i], vlive[i])
+          /\ Log(StepEv(i, "rename", "", 0))
 
 Close(i) ==
   /\ pc[i] = "close" /\ Go(i, "chmod", seen[i], vlive[i])
@@ -219,8 +225,8 @@ Crash(i) ==
   /\ alive' = alive \ {i} /\ ncrash' = ncrash + 1
   /\ pc' = [pc EXCEPT ![i] = "dead"]
   /\ busy' = IF busy = i THEN 0 ELSE busy
-  /\ litter' = IF tmp[i] # NoTmp THEN litter + 1 ELSE litter
-  /\ tmp' = [tmp EXCEPT ![i] = NoTmp]
+  /\ litter' = IF tmp[i] # NoTmp /\ "SharedTmp" \notin Dev THEN litter + 1 ELSE litter
+  /\ tmp' = IF "SharedTmp" \in Dev THEN tmp ELSE [tmp EXCEPT ![i] = NoTmp]
   /\ seen' = [seen EXCEPT ![i] = 0] /\ vlive' = [vlive EXCEPT ![i] = FALSE]
   /\ UNCHANGED <<file, fname, mpid, op, stat, nops>>
   /\ Log([a |-> "crash", i |-> i, k |-> op[i].k, to |-> op[i].to, s |-> pc[i], fin |-> "crash",
